@@ -6,6 +6,7 @@ import (
 	"fmt"
 	"strings"
 
+	"github.com/honeytrap/honeytrap/listener/agent"
 	"github.com/honeytrap/honeytrap/verifsched"
 
 	"verif/h/core"
@@ -30,6 +31,7 @@ type c16FGScen struct {
 	order      []c16Msg
 	disconnect int
 	bound      int
+	hold       *c16Hold // window 0 = the size of the first reply frame
 }
 
 func runC16FG(c *core.Ctx) {
@@ -39,13 +41,18 @@ func runC16FG(c *core.Ctx) {
 	}
 	h, d, e := "hello", "data", "eof"
 	scens := []c16FGScen{
-		{"hello data eof", [][]int{{3}}, []c16Msg{{0, h, 0}, {0, d, 0}, {0, e, 0}}, -1, b},
-		{"hello data (stays open)", [][]int{{3}}, []c16Msg{{0, h, 0}, {0, d, 0}}, -1, b},
-		{"hello data data eof", [][]int{{3, 5}}, []c16Msg{{0, h, 0}, {0, d, 0}, {0, d, 1}, {0, e, 0}}, -1, b},
-		{"hello data, agent disconnects", [][]int{{3}}, []c16Msg{{0, h, 0}, {0, d, 0}}, 2, b},
-		{"two connections", [][]int{{3}, {4}}, []c16Msg{{0, h, 0}, {1, h, 0}, {0, d, 0}, {1, d, 0}, {0, e, 0}, {1, e, 0}}, -1, b - 1},
-		{"two connections, eof of one between data of the other", [][]int{{3, 2}, {4}}, []c16Msg{{0, h, 0}, {1, h, 0}, {0, d, 0}, {1, d, 0}, {1, e, 0}, {0, d, 1}}, -1, b - 1},
+		{"hello data eof", [][]int{{3}}, []c16Msg{{0, h, 0}, {0, d, 0}, {0, e, 0}}, -1, b, nil},
+		{"hello data (stays open)", [][]int{{3}}, []c16Msg{{0, h, 0}, {0, d, 0}}, -1, b, nil},
+		{"hello data data eof", [][]int{{3, 5}}, []c16Msg{{0, h, 0}, {0, d, 0}, {0, d, 1}, {0, e, 0}}, -1, b, nil},
+		{"hello data, agent disconnects", [][]int{{3}}, []c16Msg{{0, h, 0}, {0, d, 0}}, 2, b, nil},
+		{"two connections", [][]int{{3}, {4}}, []c16Msg{{0, h, 0}, {1, h, 0}, {0, d, 0}, {1, d, 0}, {0, e, 0}, {1, e, 0}}, -1, b - 1, nil},
+		{"two connections, eof of one between data of the other", [][]int{{3, 2}, {4}}, []c16Msg{{0, h, 0}, {1, h, 0}, {0, d, 0}, {1, d, 0}, {1, e, 0}, {0, d, 1}}, -1, b - 1, nil},
 	}
+	scens = append(scens,
+		c16FGScen{"slow agent, window of one reply frame", [][]int{{3, 4, 5}}, []c16Msg{{0, h, 0}, {0, d, 0}, {0, d, 1}, {0, d, 2}, {0, e, 0}}, -1, b - 1, &c16Hold{1, 5, 0}},
+		c16FGScen{"slow agent, window of one byte", [][]int{{3, 4}}, []c16Msg{{0, h, 0}, {0, d, 0}, {0, d, 1}, {0, e, 0}}, -1, b - 1, &c16Hold{1, 4, 1}},
+		c16FGScen{"slow agent, two connections", [][]int{{3, 4}, {5, 6}}, []c16Msg{{0, h, 0}, {1, h, 0}, {0, d, 0}, {1, d, 0}, {0, d, 1}, {1, d, 1}}, -1, b - 1, &c16Hold{2, 6, 0}},
+	)
 	for _, s := range scens {
 		s := s
 		slug := strings.NewReplacer(" ", "-", ",", "").Replace(s.name)
@@ -69,7 +76,15 @@ func runC16FG(c *core.Ctx) {
 					count:       func(string, int64) {},
 					outcome:     func(...string) {},
 				}
-				c16Run(env, "fine-grain: "+s.name, c16Vconns(len(s.lens), s.lens), s.order, s.disconnect)
+				vcs := c16Vconns(len(s.lens), s.lens)
+				if s.hold != nil {
+					hold := *s.hold
+					if hold.window == 0 {
+						hold.window = 3 + len(mkFrame(agent.TypeReadWriteTCP, agent.ReadWriteTCP{Laddr: vcs[0].laddr, Raddr: vcs[0].raddr, Payload: vcs[0].data[0]}).body)
+					}
+					env.hold = &hold
+				}
+				c16Run(env, "fine-grain: "+s.name, vcs, s.order, s.disconnect)
 				verifsched.Deactivate()
 				lab.Quiesce()
 				return v
